@@ -150,6 +150,13 @@ def gen_clean_case(rng, idx, nmax):
     for _ in range(n):
         c = rng.choice(centers)
         pos.append([round(c[k] + rng.gauss(0, spread), 3) for k in range(3)])
+    if n >= 2 and rng.random() < 0.3:
+        # the same particle picked twice (merged picking runs): exactly coincident complete positions, put on the 1/8
+        # lattice so that any split into x + shift reproduces them bit for bit
+        for _ in range(rng.randint(1, max(1, n // 4))):
+            i, j = rng.sample(range(n), 2)
+            pos[i] = [round(v * 8) / 8.0 for v in pos[i]]
+            pos[j] = list(pos[i])
     if rng.random() < 0.3:
         # coarse metric values (rounded scores, class-like integers, a constant column): ties inside a group
         pool = [round(rng.uniform(0, 1), 2) for _ in range(max(1, n // rng.randint(2, 6)))]
